@@ -27,6 +27,10 @@ func (source *SR) NewTransform(dest *SR) (Transformer, error) {
 	}
 
 	return func(x, y float64) (float64, float64, error) {
+		// The datum workaround below re-targets source for the rest of this
+		// call only; it must not change the reference captured by the
+		// closure, or every later call would start from WGS84.
+		source := source
 		point := []float64{x, y}
 		// Workaround for datum shifts towgs84, if either source or destination projection is not wgs84
 		if checkNotWGS(source, dest) || checkNotWGS(dest, source) {
